@@ -8,7 +8,7 @@ from .. import astq
 from ..events import outcome_name, run_function
 from ..interp import AV, BASE_TOP, EXT_TOP, UNK, BaseRule, Out, const, exc
 from ..model import AnalysisError
-from ..rows import GenRule, effect_rows
+from ..rows import GenRule, effect_rows, helper_closure
 from ..terms import K, T, destruct, norm, subterms
 from . import resend
 
@@ -152,8 +152,37 @@ def run(ctx):
     gb = m.method(RETRY, "get_backoff_time")
     rws = [r for r in sleep_rows(gb) if r.returns]
     ctx.sites(R4, len(rws), 2, "returning rows of get_backoff_time")
+    def _dec_bounds(r, t_):
+        """bounds established by the decisions of the row (an explicit clamp spelt with comparisons instead of min/max)"""
+        op_, a_ = destruct(t_)
+        v_ = a_[0] if op_ == "float" and len(a_) == 1 else t_
+        lo_ = hi_ = False
+        BM = "self.backoff_max"
+        for k_, val in r.st.ts.items():
+            if not (isinstance(k_, tuple) and len(k_) == 4 and k_[0] == "cmp"):
+                continue
+            a1, o1, b1 = k_[1], k_[2], str(k_[3])
+            if a1 == v_ and b1 == "0":
+                lo_ = lo_ or (o1 == "<" and val is False) or (o1 == ">=" and val is True) or (o1 == ">" and val is True) or (o1 == "<=" and val is False)
+            if a1 == "0" and b1 == v_:
+                lo_ = lo_ or (o1 == ">" and val is False) or (o1 == "<=" and val is True) or (o1 == "<" and val is True)
+            if a1 == v_ and b1 == BM:
+                hi_ = hi_ or (o1 == ">" and val is False) or (o1 == "<=" and val is True) or (o1 == "<" and val is True)
+            if a1 == BM and b1 == v_:
+                hi_ = hi_ or (o1 == "<" and val is False) or (o1 == ">=" and val is True) or (o1 == ">" and val is True)
+        if v_ == BM:
+            hi_ = True
+            # backoff_max itself is returned because the value exceeded it; it is the caller's configuration (non-negative by contract)
+            lo_ = lo_ or any(isinstance(k_, tuple) and len(k_) == 4 and k_[0] == "cmp" and BM in (k_[1], str(k_[3])) for k_ in r.st.ts)
+        if destruct(v_)[0] == "const" and isinstance(destruct(v_)[1], (int, float)) and not isinstance(destruct(v_)[1], bool):
+            lo_, hi_ = lo_ or destruct(v_)[1] >= 0, hi_ or destruct(v_)[1] <= 0
+        return lo_, hi_
+
     for r in rws:
         lo, hi = _tb(r.ret)
+        if not (lo and hi):
+            lo2, hi2 = _dec_bounds(r, r.ret)
+            lo, hi = lo or lo2, hi or hi2
         ctx.ob(R4, gb.qual, f"`{r.ret[:90]}` within [0, backoff_max]", lo and hi,
                "" if lo and hi else f"lower bound proven={lo}, upper bound proven={hi}: the sleep can be negative or exceed backoff_max", witness=r.witness(), node=gb.node)
     pr = m.method(RETRY, "parse_retry_after")
@@ -406,34 +435,61 @@ def run(ctx):
     ice = m.method(RETRY, "_is_connection_error")
     ire = m.method(RETRY, "_is_read_error")
 
-    def isinstance_classes(fi):
-        out = []
-        for c in astq.calls(fi.node):
-            if astq.call_text(c) == "isinstance" and len(c.args) == 2:
-                t = c.args[1]
-                out.append([m.resolve_name(fi.module, e) for e in (t.elts if isinstance(t, ast.Tuple) else [t])])
+    from ..rows import row_bool
+
+    def class_rows(fi):
+        rws = [r for r in effect_rows(ctx, fi, GenRule(ctx, fi.module, inline=set(helper_closure(m, [fi])) - {fi.qual}), RETRY) if r.returns]
+        return rws
+
+    def verdicts_for(fi, rws, q):
+        """verdicts of the rows that are consistent with `err` being exactly an instance of class q (decisions about the
+        unwrapped ProxyError.original_error are left open)"""
+        P = "p:" + fi.params()[0]
+        out = set()
+        for r in rws:
+            consistent_ = True
+            for k_, v_ in r.st.ts.items():
+                if isinstance(k_, tuple) and k_[0] == "isinst" and k_[1] == P:
+                    holds = any(c_ and m.issub(q, c_) for c_ in k_[2])
+                    if holds != v_:
+                        consistent_ = False
+            if consistent_:
+                out.add(row_bool(r))
         return out
 
-    rd = [q for lst in isinstance_classes(ire) for q in lst]
+    rrows = class_rows(ire)
+    crows = class_rows(ice)
+    ctx.sites(R7, len(rrows), 2, "rows of _is_read_error")
+    ctx.sites(R7, len(crows), 2, "rows of _is_connection_error")
     for q in ("urllib3.exceptions.ProtocolError", "urllib3.exceptions.ReadTimeoutError"):
-        ok = any(m.issub(q, r) for r in rd if r)
-        ctx.ob(R7, ire.qual, f"{q.rsplit('.', 1)[1]} is a read error", ok, "" if ok else "a post-send failure is classified as `other`: non-idempotent requests are re-sent")
-    cn = [q for lst in isinstance_classes(ice) for q in lst]
-    final = isinstance_classes(ice)[-1] if isinstance_classes(ice) else []
+        v = verdicts_for(ire, rrows, q)
+        ok = v == {True}
+        ctx.ob(R7, ire.qual, f"{q.rsplit('.', 1)[1]} is a read error", ok, "" if ok else f"verdicts {sorted(map(str, v))}: a post-send failure is classified as `other`: non-idempotent requests are re-sent")
+    for q in ("urllib3.exceptions.ConnectTimeoutError", "urllib3.exceptions.NewConnectionError", "urllib3.exceptions.SSLError"):
+        v = verdicts_for(ire, rrows, q)
+        ctx.ob(R7, ire.qual, f"{q.rsplit('.', 1)[1]} is not a read error", v == {False}, f"verdicts {sorted(map(str, v))}")
     for q in ("urllib3.exceptions.ProtocolError", "urllib3.exceptions.ReadTimeoutError", "urllib3.exceptions.SSLError"):
-        bad = any(m.issub(q, r) for r in final if r)
-        ctx.ob(R7, ice.qual, f"{q.rsplit('.', 1)[1]} is not a connection error", not bad, "" if not bad else "a post-send failure is treated as 'server never saw the request'")
-    ok = any(m.issub("urllib3.exceptions.ConnectTimeoutError", r) for r in final if r)
-    ctx.ob(R7, ice.qual, "ConnectTimeoutError is a connection error", ok)
-    rets = [r for r in astq.walk_fn(ire.node) if isinstance(r, ast.Return)]
-    ctx.ob(R7, ire.qual, "_is_read_error is a pure isinstance test", len(rets) == 1 and isinstance(rets[0].value, ast.Call) and astq.call_text(rets[0].value) == "isinstance")
-    # order of the branches in increment: connection, then read, then other
-    tests = [n for n in astq.walk_fn(inc.node) if isinstance(n, ast.If) and "self._is_connection_error" in astq.text(n.test)]
-    ok = False
-    if tests:
-        t0 = tests[0]
-        ok = len(t0.orelse) == 1 and isinstance(t0.orelse[0], ast.If) and "self._is_read_error" in astq.text(t0.orelse[0].test)
-    ctx.ob(R7, inc.qual, "read classification is consulted before the ungated `other` branch", ok)
+        v = verdicts_for(ice, crows, q)
+        bad = v != {False}
+        ctx.ob(R7, ice.qual, f"{q.rsplit('.', 1)[1]} is not a connection error", not bad, "" if not bad else f"verdicts {sorted(map(str, v))}: a post-send failure is treated as 'server never saw the request'")
+    v = verdicts_for(ice, crows, "urllib3.exceptions.ConnectTimeoutError")
+    ctx.ob(R7, ice.qual, "ConnectTimeoutError is a connection error", v == {True}, f"verdicts {sorted(map(str, v))}")
+    # order of the branches in increment: on every row that spends the ungated `other` budget the read classification was
+    # consulted and said no
+    n_other = 0
+    for r in rows:
+        kw_, nt_ = new_call(r)
+        if nt_ is None or r.truth(PE) is not True or r.truth(CONN) is True or r.truth(READ) is True:
+            continue
+        if kw_.get("other") in (None, "self.other"):
+            continue
+        n_other += 1
+        ok = r.truth(READ) is False and r.truth(CONN) is False
+        ctx.ob(R7, inc.qual, "read classification is consulted before the ungated `other` branch", ok,
+               "" if ok else f"`other` is spent with connection-error={r.truth(CONN)} read-error={r.truth(READ)}: a failure after the request was sent may bypass the method gate", witness=r.witness(), node=inc.node)
+        if n_other > 3:
+            break
+    ctx.sites(R7, n_other, 1, "rows of increment spending the `other` budget")
 
     rule_r8(ctx)
 
